@@ -135,7 +135,8 @@ Section Hier.
   | SOne (l : A)                           (* a label *)
   | SList (ls : list A)                    (* a list of labels *)
   | SSlice (a b : option A)                (* a label slice, both ends inclusive, step None *)
-  | SMask (bs : list bool).                (* a Boolean array over ALL positions of the index *)
+  | SMask (bs : list bool)                 (* a Boolean array over ALL positions of the index *)
+  | SStep (a b : option A) (k : Z).        (* a label slice with a step k <> 0: both ends inclusive; k < 0 walks down *)
 
   Definition sel_multiple (s : sel) : bool := match s with SOne _ => false | _ => true end.
   Definition sel_at (key : list sel) (d : nat) : sel := nth d key SAll.    (* HLoc.__getitem__ (hloc.py:38) *)
@@ -161,6 +162,9 @@ Section Hier.
     | w :: want' => match index_of w ls with Some i => i :: pick_labels ls want' | None => pick_labels ls want' end
     end.
 
+  Definition step_idx (i k : Z) (cnt : nat) : list nat :=
+    map (fun t => Z.to_nat (i + Z.of_nat t * k)) (seq 0 cnt).
+
   (* which members (local position, in result order) of a sibling group with labels `ls` a selector picks;
      `base` = absolute position of the group's first row (masks are over absolute positions) *)
   Definition S_pick (inner : bool) (base : Z) (ls : list A) (s : sel) : res (list nat) :=
@@ -178,6 +182,25 @@ Section Hier.
         if inner
         then Ok (filter (fun i => nth (Z.to_nat (base + Z.of_nat i)) bs false) (seq 0 (length ls)))
         else Err "OutsideClaim"
+    | SStep a b k =>
+        (* every |k|-th label from the start label to the stop label, both inclusive; an open end is the first /
+           last label of THIS sibling group (for k < 0: start at the last, stop at the first) *)
+        if negb inner then Err "OutsideClaim"
+        else if k =? 0 then Err "ValueError"
+        else
+          let n := Z.of_nat (length ls) in
+          let bound (x : option A) (dflt : Z) : option Z :=
+              match x with None => Some dflt | Some l => option_map Z.of_nat (index_of l ls) end in
+          if 0 <? k then
+            match bound a 0, bound b (n - 1) with
+            | Some i, Some j => Ok (step_idx i k (if i <=? j then Z.to_nat ((j - i) / k + 1) else O))
+            | _, _ => Err "KeyError"
+            end
+          else
+            match bound a (n - 1), bound b 0 with
+            | Some i, Some j => Ok (step_idx i k (if j <=? i then Z.to_nat ((i - j) / (- k) + 1) else O))
+            | _, _ => Err "KeyError"
+            end
     end.
 
   (* absolute position of the first row of each group *)
@@ -264,6 +287,13 @@ Section Hier.
 
   Definition M_widths (t : level) (d : nat) : res (list (A * Z)) := walk_at_depth get_widths t d.
 
+  (* IndexLevel.labels_at_depth (index_level.py:297-331), behind IndexHierarchy.iter_label(depth) while the
+     2-D table is not built: its own copy of the width logic (get_labels), each label repeated by its width *)
+  Definition get_labels (t : level) : list A :=
+    flat_map (fun lw => repeat (fst lw) (Z.to_nat (snd lw))) (get_widths t).
+  Definition M_labels_at_depth (t : level) (d : nat) : res (list A) :=
+    match walk_at_depth get_labels t d with Ok ls => Ok ls | Err e => Err e end.
+
   (* IndexLevel.values_at_depth (index_level.py:631) *)
   Definition M_values_at_depth (t : level) (d : nat) : res (list A) :=
     if Nat.eqb (S d) (lv_depth t)
@@ -319,7 +349,7 @@ Section Hier.
     end.
 
   (* ---- LocMap.loc_to_iloc (index.py:194) as called with partial_selection=True *)
-  Inductive part : Type := PInt (z : Z) | PSlice (a b : option Z) | PList (l : list Z).
+  Inductive part : Type := PInt (z : Z) | PSlice (a b : option Z) | PList (l : list Z) | PStep (a b : option Z) (k : Z).
 
   Definition slice_bound (ls : list A) (x : option A) (shift : Z) : res (option Z) :=
     match x with
@@ -359,6 +389,32 @@ Section Hier.
         if Nat.eqb (length bs) (length ls)
         then Ok (PList (map (fun i => Z.of_nat i + o) (filter (fun i => nth i bs false) (seq 0 (length ls)))))
         else Err "IndexError"
+    | SStep a b k =>
+        (* LocMap.map_slice_args (index.py:115-190), generic (non-datetime64) branch: the offset is added right
+           after the label lookup; the inclusive stop is pos + 1 going up, pos - 1 (None below 0) going down (fix
+           c6f9ada); LocMap.loc_to_iloc then bounds open ends by this index's extent only for k > 0 (fix cc33791) *)
+        match offset with
+        | None => Err "OutsideModel"
+        | Some o' =>
+            if k =? 0 then Err "ValueError"
+            else
+              match slice_bound ls a o' with
+              | Err e => Err e
+              | Ok sa =>
+                  match slice_bound ls b o' with
+                  | Err e => Err e
+                  | Ok sb0 =>
+                      let sb := match sb0 with
+                                | None => None
+                                | Some p => if 0 <? k then Some (p + 1) else if p - 1 <? 0 then None else Some (p - 1)
+                                end in
+                      if 0 <? k
+                      then Ok (PStep (match sa with None => Some o' | _ => sa end)
+                                     (match sb with None => Some (zlen ls + o') | _ => sb end) k)
+                      else Ok (PStep sa sb k)
+                  end
+              end
+        end
     end.
 
   Definition nth_kid (ks : list level) (z : Z) : list level :=
@@ -373,6 +429,7 @@ Section Hier.
         let lo := match a with Some z => Z.to_nat z | None => O end in
         let hi := match b with Some z => Z.to_nat z | None => length ks end in
         skipn lo (firstn hi ks)
+    | PStep _ _ _ => []          (* stepped slices are modelled at the innermost depth only *)
     end.
 
   (* ---- IndexLevel.loc_to_iloc, HLoc branch (index_level.py:499-563): deque of (level, depth, offset) *)
@@ -396,6 +453,7 @@ Section Hier.
     | Node _ ls ks =>
         match dk with
         | SMask _ => ([None], [])      (* Boolean array at an outer depth: outside the claim, not modelled *)
+        | SStep _ _ _ => ([None], [])  (* stepped label slice at an outer depth: not modelled *)
         | _ =>
             match M_locmap ls dk None with
             | Ok p => ([], map (fun k => (k, S d, next)) (select_kids ks p))
@@ -412,6 +470,10 @@ Section Hier.
                     | Some ps => Ok ps
                     | None => Err "ValueError"
                     end
+    | PStep a b k => match positions (mk_slice a b (Some k)) total with
+                     | Some ps => Ok ps
+                     | None => Ok []          (* k = 0 never gets here: rejected by M_locmap *)
+                     end
     end.
 
   Definition is_none {B} (o : option B) : bool := match o with None => true | Some _ => false end.
@@ -449,6 +511,10 @@ Section Hier.
   Definition sel_guard (inner : bool) (total : nat) (s : sel) : bool :=
     match s with
     | SMask bs => inner && Nat.eqb (length bs) total
+    | SStep a b k =>
+        (* innermost depth only; walking down with an open end is finding C05-hloc-open-neg-step-slice *)
+        inner && negb (k =? 0) &&
+        ((0 <? k) || match a, b with Some _, Some _ => true | _, _ => false end)
     | _ => true
     end.
   Definition key_guard (D total : nat) (key : list sel) : bool :=
@@ -615,6 +681,7 @@ Arguments SOne {A} l.
 Arguments SList {A} ls.
 Arguments SSlice {A} a b.
 Arguments SMask {A} bs.
+Arguments SStep {A} a b k.
 Arguments OAppend {A} k.
 Arguments OExtend {A} u.
 Arguments ORead {A}.
@@ -636,6 +703,8 @@ Arguments at_depth_step {A R} emit target x.
 Arguments widths_go {A} ls ks trav.
 Arguments get_widths {A} t.
 Arguments M_widths {A} t d.
+Arguments get_labels {A} t.
+Arguments M_labels_at_depth {A} t d.
 Arguments walk_at_depth {A R} emit t d.
 Arguments M_values_at_depth {A} t d.
 Arguments M_blocks {A} t.
